@@ -72,3 +72,40 @@ Theorem C16_edit_cost :
   <= Z.of_nat (length Y) + 2 * (Z.of_nat bs - 1) + Z.of_nat (length tail).
 Proof. intros beq bs Hp Hbeq. exact (edit_cost bs Hp beq Hbeq). Qed.
 Print Assumptions C16_edit_cost.
+
+(** The same bound in the form the property states it: the source is the basis with the bytes [o, o+x) replaced by Y
+    (an insertion when x = 0, a deletion when Y = [], a replacement otherwise) ANYWHERE in the whole-block part of the
+    basis ([bl]: the full blocks in order, [tail]: the trailing partial block).  The textbook scan - and so, by
+    C16_literals_eq_greedy, the computed delta - carries at most |Y| + 2(bs-1) + |tail| literal bytes: at most
+    k plus two blocks for a k-byte edit of a file made of whole blocks ([C16_edit_whole_blocks]). *)
+From Copia Require Proofs.EditCostProofs.
+Theorem C16_edit_at_offset :
+  forall (bs : nat), (0 < bs)%nat ->
+  forall (beq : list Z -> list Z -> bool), (forall a b, beq a b = true <-> a = b) ->
+  forall (full bl : list (list Z)) (tail Y : list Z) (o x fuel : nat),
+  (forall b, In b bl -> In b full /\ length b = bs) ->
+  (length tail < bs)%nat -> (o + x <= length bl * bs)%nat ->
+  let basis := concat bl ++ tail in
+  let src := firstn o basis ++ Y ++ skipn (o + x) basis in
+  (length src < fuel)%nat ->
+  greedy_lit bs beq fuel full src <= Z.of_nat (length Y) + 2 * (Z.of_nat bs - 1) + Z.of_nat (length tail).
+Proof. intros bs Hp beq Hbeq. exact (EditCostProofs.edit_at_offset bs Hp beq Hbeq). Qed.
+Print Assumptions C16_edit_at_offset.
+
+Theorem C16_edit_whole_blocks :
+  forall (bs : nat), (0 < bs)%nat ->
+  forall (beq : list Z -> list Z -> bool), (forall a b, beq a b = true <-> a = b) ->
+  forall (full bl : list (list Z)) (Y : list Z) (o x fuel : nat),
+  (forall b, In b bl -> In b full /\ length b = bs) -> (o + x <= length bl * bs)%nat ->
+  let basis := concat bl in
+  let src := firstn o basis ++ Y ++ skipn (o + x) basis in
+  (length src < fuel)%nat ->
+  greedy_lit bs beq fuel full src < Z.of_nat (length Y) + 2 * Z.of_nat bs.
+Proof.
+  intros bs Hp beq Hbeq full bl Y o x fuel Hbl Hox basis src Hf.
+  assert (Ht : (length (@nil Z) < bs)%nat) by exact Hp.
+  pose proof (EditCostProofs.edit_at_offset bs Hp beq Hbeq full bl [] Y o x fuel Hbl Ht Hox) as R.
+  cbv zeta in R. rewrite !app_nil_r in R. specialize (R Hf). cbn [length] in R. fold basis in R.
+  fold src in R. change (Z.of_nat 0) with 0 in R. Lia.lia.
+Qed.
+Print Assumptions C16_edit_whole_blocks.
